@@ -152,6 +152,8 @@ struct NodeShared {
     sock_open: bool,
     bound_port: u16,
     skew_micros: i64,
+    /// One-shot: the transaction-id counter the node's socket is fast-forwarded to.
+    tid_override: Option<u32>,
 }
 
 struct Shared {
@@ -369,6 +371,14 @@ impl Env for SimEnv {
             }
             b = sync.cv.wait(b).unwrap_or_else(|e| e.into_inner());
         }
+    }
+
+    fn next_tid_override(&self) -> Option<u32> {
+        if TL_LOCAL.with(|l| l.get()) || stale_thread() {
+            return None;
+        }
+        let n = current_node()?;
+        shared().as_mut().and_then(|s| s.nodes.get_mut(n)).and_then(|node| node.tid_override.take())
     }
 
     fn actor_exit(&self, panicking: bool) {
@@ -724,6 +734,7 @@ impl World {
                 sock_open: false,
                 bound_port: cfg.port,
                 skew_micros: cfg.skew_micros,
+                tid_override: None,
             });
             assert!(s.constructing.is_none());
             s.constructing = Some(idx);
@@ -1271,6 +1282,14 @@ impl World {
     }
 
     // --- convenience wrappers over the public async API --------------------------------------
+
+    /// Fast-forwards the node's transaction-id counter at its next loop iteration (a node that
+    /// has been running, and sending requests, for a long time).
+    pub fn set_next_tid(&mut self, node: usize, tid: u32) {
+        if let Some(s) = shared().as_mut() {
+            s.nodes[node].tid_override = Some(tid);
+        }
+    }
 
     pub fn call_bootstrapped(&mut self, node: usize) -> usize {
         let dht = self.dht(node);
